@@ -4,11 +4,17 @@ from fam_flow import FlowFamily
 from fam_actions import ActionsFamily
 from fam_store import StoreFamily
 from fam_model import ModelFamily
+from fam_chan import ChanFamily
+from fam_script import ScriptFamily
+from fam_error import ErrorFamily
 
 FLOW = FlowFamily()
 ACTIONS = ActionsFamily()
 STORE = StoreFamily()
 MODEL = ModelFamily()
+CHAN = ChanFamily()
+SCRIPT = ScriptFamily()
+ERROR = ErrorFamily()
 
 QUIESCENT = ['cur-fifo', 'cur-chaos', 'cur-chaos-lifo', 'mt2-chaos', 'mt4-chaos', 'mt8']
 ALLSCHED = QUIESCENT + ['cur-inline', 'mt2-inline']
@@ -19,6 +25,24 @@ def part(name, family, quick, thorough, monitors=(), judge=False, props=None, **
 
 
 PROPS = {
+    'C06': {
+        'level': 'exploration',
+        'rule': 'distinct (model with generated catch placement, error code / error source) pairs',
+        'parts': [part('error', ERROR, 2000, 50000, judge=True, props=['C06'], chunk=100)],
+    },
+    'C14': {
+        'level': 'exploration',
+        'rule': 'distinct JSON values that are composite, beyond 32 bits, floats or non-ASCII / escape-bearing strings, plus distinct template sets with at least one expression',
+        'parts': [
+            part('values', SCRIPT, 2500, 80000, judge=True, props=['C14'], sub='value', chunk=150),
+            part('templates', SCRIPT, 1500, 40000, judge=True, props=['C14'], sub='template', chunk=150),
+        ],
+    },
+    'C18': {
+        'level': 'exploration',
+        'rule': 'distinct (model, channel filter set, op script) cases; every (registration, message) pair is one decision of the independent matcher',
+        'parts': [part('chan', CHAN, 1200, 30000, judge=True, props=['C18'], chunk=100)],
+    },
     'C20': {
         'level': 'exploration',
         'rule': 'distinct generated workflow values with at least three tree nodes (all optional fields, unicode / YAML-hostile text, nested catches, timeouts, setup; 30% with an injected duplicate node id)',
